@@ -174,6 +174,23 @@ CHECKS = {
          "present, per-day present/absent counts exact (read through the class's own _set_data).",
          "Feed covers the meter span plus a day on each side.",
          "DESIGN.md section 6, C09"),
+ "C12": ("exploration",
+         "exhaustive over a stated finite grid of generated baselines x profiles: every fitted sub-model inspected, every fitted component's kept coefficients re-evaluated at its own baseline temperatures (guarded hook attributes mismatches)",
+         "Grid: shape {heating, cooling, both, flat, narrow dead band} x regime {none, weekend, summer} x noise {0.5, 5, 20 %} x outliers {0, 3 spikes} x length "
+         "{365, 330} x climate {continental, mild} x {daily: current + legacy, billing} (quick: a sub-grid containing every value of every factor). "
+         "For every sub-model of every fit: finite coefficients, hdd_bp <= cdd_bp inside the segment's temperature range, slope signs, non-zero declared "
+         "slopes, k >= 0, base load within the usage range, finite non-negative uncertainty, model type vs coefficient set, temperature limits equal to "
+         "those of the days fitted on; for every entry of model.fit_components and model.model: eval(T) reproduces the fitted values (1e-9).",
+         "A grid, not all datasets (the optimisers are black boxes); hook OPENDSM_EEMETER_VERIF=1 keeps the raw optimiser vector for attribution only.",
+         "DESIGN.md section 6, C12"),
+ "C15": ("exploration",
+         "exhaustive over the stated finite grid of generating parameters: fit, predict on the baseline year and a second weather year, compare with the generating curve",
+         "base load {5,50} x slope {0.3,3} x heating balance point {45,58} x cooling balance point {64,75} x shape {heating, cooling, both, flat} x climate "
+         "{continental, mild, hot} x zone {UTC, Chicago} x noise draw {0,1,2} (1 % multiplicative) x {daily, monthly-billed}; precondition >= 30 days per "
+         "active regime (else counted as rejected). NRMSE vs the generating curve <= 5 % of mean usage on both years; no heating (cooling) load above 5 % "
+         "of usage where the generator has none.",
+         "Grid only; billing compared at daily and monthly resolution (the better counts).",
+         "DESIGN.md section 6, C15"),
 }
 
 NOT_YET = {}
